@@ -52,7 +52,8 @@ def run(ck):
                   "_total": twod2._total, "_resolutions": twod2._resolutions}
     ptypes, procs, sigs, total, ress = (tables[k] for k in ("_ptypes", "_processes", "_signals", "_total", "_resolutions"))
     level_names = {4: ptypes, 3: ptypes, 2: list(procs), 1: list(sigs), 0: [total]}
-    base = numpy.array(BASE, dtype=complex)
+    base0 = numpy.array(BASE, dtype=complex)
+    cur_base = [base0]            # the data shape of the history being run (2x2 mostly; 1x1, 1xN, Nx1, 2x3 as boundary sizes)
     rng = ck.rng
 
     def tk(tag):
@@ -60,13 +61,14 @@ def run(ck):
         return "-" if tag is None else ("EMPTY" if tag == "" else str(tag))
 
     def arr(v):
-        return v * base.copy()
+        return v * cur_base[0].copy()
 
     def dec(a):
         if a is None:
             return "none"
         a = numpy.asarray(a)
-        if a.shape != (2, 2):
+        base = cur_base[0]
+        if a.shape != base.shape:
             return "shape%s" % (a.shape,)
         v = a[0, 0]
         if not numpy.array_equal(a, v * base) or v.imag != 0 or v.real != int(v.real):
@@ -94,9 +96,10 @@ def run(ck):
     hist_starts = []
     for h in range(nhist):
         r = twod2.TwoDResponse()
-        ax = qr.FrequencyAxis(0.0, 2, 1.0)
-        r.set_axis_1(ax)
-        r.set_axis_3(ax)
+        shp = (2, 2) if h % 5 else ((1, 1), (1, 3), (3, 1), (2, 3))[(h // 5) % 4]
+        cur_base[0] = base0 if shp == (2, 2) else (numpy.arange(1, shp[0] * shp[1] + 1, dtype=complex).reshape(shp) + (numpy.arange(shp[0] * shp[1]).reshape(shp) % 2))
+        r.set_axis_1(qr.FrequencyAxis(0.0, shp[0], 1.0))
+        r.set_axis_3(qr.FrequencyAxis(0.0, shp[1], 1.0))
         hist_starts.append(len(lines))
         lines.append("new"); impl.append("ok")
         accepted = []   # (level, name, tag, v)
